@@ -386,12 +386,16 @@ func (P *Program) smoke(g *Gen, base, dir string) {
 	var dead []string
 	lines := strings.Fields(out)
 	k := 0
+	undecided := 0
 	for _, l := range lines {
 		if l != "sat" && l != "unsat" && l != "unknown" {
 			continue
 		}
 		if k < len(g.smokePts) && l == "unsat" {
 			dead = append(dead, g.smokePts[k].name)
+		}
+		if l == "unknown" {
+			undecided++
 		}
 		k++
 	}
@@ -404,8 +408,11 @@ func (P *Program) smoke(g *Gen, base, dir string) {
 		dead = []string{}
 	}
 	ob.Dead = dead
-	ob.Output = fmt.Sprintf("dead points (%d, contract declares %d): %v", len(dead), want, dead)
-	if len(dead) != want {
+	ob.Undecided = undecided
+	ob.Output = fmt.Sprintf("dead points (%d, contract declares %d, %d undecided within the per-point time limit): %v", len(dead), want, undecided, dead)
+	// points the solver could not decide in time may be dead or live: the count is
+	// wrong only if it is wrong whichever way they fall
+	if len(dead) > want || len(dead)+undecided < want {
 		ob.Status = "vacuous"
 	} else {
 		ob.Status = "covered"
@@ -500,6 +507,9 @@ func (P *Program) verify(key string, tier string, timeoutS int) *FuncResult {
 						}
 					}
 					m.Dead = keep
+					if ob.Undecided > m.Undecided {
+						m.Undecided = ob.Undecided
+					}
 				} else if ob.Status == "covered" {
 					m.Status = "covered"
 				}
@@ -513,8 +523,8 @@ func (P *Program) verify(key string, tier string, timeoutS int) *FuncResult {
 	}
 	for _, ob := range first.obls {
 		if ob.Kind == "cover" && ob.Dead != nil && ob.Status != "cover-unknown" {
-			ob.Output = fmt.Sprintf("dead points (%d, contract declares %d): %v", len(ob.Dead), ct.DeadPoints, ob.Dead)
-			if len(ob.Dead) != ct.DeadPoints {
+			ob.Output = fmt.Sprintf("dead points (%d, contract declares %d, %d undecided within the per-point time limit): %v", len(ob.Dead), ct.DeadPoints, ob.Undecided, ob.Dead)
+			if len(ob.Dead) > ct.DeadPoints || len(ob.Dead)+ob.Undecided < ct.DeadPoints {
 				ob.Status = "vacuous"
 			} else {
 				ob.Status = "covered"
